@@ -7,6 +7,7 @@ from .. import sym as S
 from ..cfg import CFG
 from ..dataflow import containing_node
 from ..eff import Effects
+from ..report import MISSING
 from ..model import AnalysisError
 from ..symeval import SymEval
 from . import cli_common as cc
@@ -48,7 +49,7 @@ def stencil(ctx, R="R-C18-stencil"):
         elif isinstance(n, ast.Assign) and any(isinstance(t, ast.Subscript) and astq.base_name(t) == sig for t in n.targets):
             writes.append(n)
     loops = [n for n in f.body_nodes() if isinstance(n, (ast.For, ast.While))]
-    ctx.check(not loops, R, f, loops[0] if loops else f.node, "the update is not chunked or looped (no read of already-updated samples)",
+    ctx.check(not loops, R, f, loops[0] if loops else MISSING(f.node), "the update is not chunked or looped (no read of already-updated samples)",
               "pre-emphasis is applied piecewise in a loop; a piece that reads the sample before its first one after an earlier piece "
               "overwrote it computes x[i] - coeff*y[i-1] instead of x[i] - coeff*x[i-1]")
     ctx.check(len(writes) == 1, R, f, writes[1] if len(writes) > 1 else f.node, "exactly one statement updates the signal",
@@ -71,10 +72,10 @@ def stencil(ctx, R="R-C18-stencil"):
     # axis handling: moveaxis to -1 and back under the same test
     mv = [c for c in astq.func_calls(f) if prog.qualify(f.module, c.func, f) == "numpy.moveaxis"]
     ok = len(mv) == 2 and [astq.text(a) for a in mv[0].args[1:]] == ["axis", "-1"] and [astq.text(a) for a in mv[1].args[1:]] == ["-1", "axis"]
-    ctx.check(ok, R, f, mv[0] if mv else f.node, "a given axis is moved to the end and back", "axis handling is %s" % [astq.text(c) for c in mv])
+    ctx.check(ok, R, f, mv[0] if mv else MISSING(f.node), "a given axis is moved to the end and back", "axis handling is %s" % [astq.text(c) for c in mv])
     init = prog.own_method(prog.cls("pre.Preemphasize"), "__init__")
     st = [n for n in init.body_nodes() if isinstance(n, ast.Assign) and astq.is_self_attr(n.targets[0], init.params[0], "coeff")]
-    ctx.check(len(st) == 1 and astq.text(st[0].value) == "coeff", R, init, st[0] if st else init.node, "coeff is stored unchanged")
+    ctx.check(len(st) == 1 and astq.text(st[0].value) == "coeff", R, init, st[0] if st else MISSING(init.node), "coeff is stored unchanged")
     # torch twin
     g = prog.func("torch.pytorch_preemphasize")
     ev = SymEval(prog, g).run()
@@ -109,13 +110,13 @@ def roundtrip(ctx, R="R-C18-float64-roundtrip"):
             ctx.check(ncap in dom.get(cfg.node(r), ()), R, f, r, "the dtype is recorded before the signal is converted",
                       "the signal is re-bound before its dtype was recorded")
         up = [r for r in rebinds if astq.text(r.value).replace(" ", "") == "%s.astype(np.float64)" % sig]
-        ctx.check(len(up) == 1, R, f, up[0] if up else f.node, "%s.apply works on a float64 copy" % name, "no `signal = signal.astype(np.float64)` in %s.apply" % name)
+        ctx.check(len(up) == 1, R, f, up[0] if up else MISSING(f.node), "%s.apply works on a float64 copy" % name, "no `signal = signal.astype(np.float64)` in %s.apply" % name)
         if up:
             pm = astq.parents(f)
             g = [a for a in astq.ancestors(pm, up[0]) if isinstance(a, ast.If)]
             t = astq.text(g[0].test).replace(" ", "") if g else ""
             ok = len(g) == 1 and t in ("notin_placeor%s.dtype!=np.float64" % sig, "notin_placeor%s!=np.float64" % dn)
-            ctx.check(ok, R, f, g[0] if g else up[0], "the copy is skipped only for an in-place call on a float64 array",
+            ctx.check(ok, R, f, g[0] if g else MISSING(up[0]), "the copy is skipped only for an in-place call on a float64 array",
                       "the float64 copy is made under `%s`" % (astq.text(g[0].test) if g else "no condition"))
         for r in astq.returns_of(f):
             ok = astq.text(r.value).replace(" ", "") in ("%s.astype(%s,copy=False)" % (sig, dn), "%s.astype(%s)" % (sig, dn))
@@ -142,7 +143,7 @@ def dither(ctx, R="R-C18-dither-independence"):
     draws = [c for c in astq.func_calls(f) if (prog.qualify(f.module, c.func, f) or "").startswith("numpy.random.")]
     other = [c for c in astq.func_calls(f) if isinstance(c.func, ast.Attribute) and c.func.attr in ("normal", "randn", "standard_normal", "random", "uniform")
              and c not in draws]
-    ctx.check(not other, R, f, other[0] if other else f.node, "noise comes from the global NumPy generator (reproducible under numpy.random.seed)",
+    ctx.check(not other, R, f, other[0] if other else MISSING(f.node), "noise comes from the global NumPy generator (reproducible under numpy.random.seed)",
               "noise is drawn by %s, not from numpy.random's global generator; numpy.random.seed no longer reproduces it"
               % (astq.text(other[0].func) if other else ""))
     ctx.check(len(draws) >= 1, R, f, f.node, "Dither.apply draws its noise with numpy.random.*", "no numpy.random draw in Dither.apply")
